@@ -525,3 +525,28 @@ package iavl
 //@   ensures [overlay] !tree.skipFastStorageUpgrade ==> tree.unsavedFastNodeAdditions != nil && tree.unsavedFastNodeRemovals != nil && smhas[tree.unsavedFastNodeAdditions] == emptyKeys && smhas[tree.unsavedFastNodeRemovals] == emptyKeys
 //@   ensures [frame] nframe(old(heap(N)), heap(N), old(na))
 //@   modifies tree.ImmutableTree, tree.unsavedFastNodeAdditions, tree.unsavedFastNodeRemovals
+
+// ---------------------------------------------------------------- node.go: hashing (C02: the documented hash preimage)
+//
+// leaf:  sha256( V(0) V(1) V(version) B(key) B32(sha256(value)) )
+// inner: sha256( V(height) V(size) V(version) B32(hash(left)) B32(hash(right)) )   — the key is NOT hashed for inner nodes
+
+//@ func (*Node).writeHashBytes(node, w, version) (err)
+//@   props C02 C03
+//@   requires node != nil && w != nil
+//@   let hdr = appV(appV(appV(wstream[w], node.subtreeHeight), node.size), version)
+//@   ensures [leaf] err == nil && node.subtreeHeight == 0 ==> wstream[w] == appB(appB(hdr, ord(node.key), len(node.key)), shaS(appRaw(SNil, ord(node.value), len(node.value))), 32)
+//@   ensures [children] err == nil && node.subtreeHeight != 0 ==> node.leftNode != nil && node.rightNode != nil
+//@   ensures [inner] err == nil && node.subtreeHeight != 0 && len(node.leftNode.hash) == 32 && len(node.rightNode.hash) == 32 ==> wstream[w] == appB(appB(hdr, ord(node.leftNode.hash), 32), ord(node.rightNode.hash), 32)
+//@   modifies wstream[w]
+
+// _hash memoises: an already set hash is returned as is; otherwise it is the
+// digest of exactly the bytes writeHashBytes produces for `version`.
+//@ func (*Node)._hash(node, version) (res)
+//@   props C02
+//@   requires node != nil
+//@   ensures [memo] old(node.hash) != nil ==> res == old(node.hash) && node.hash == old(node.hash)
+//@   ensures [leaf] old(node.hash) == nil && res != nil && node.subtreeHeight == 0 ==> node.hash == res && len(res) == 32 && ord(res) == shaS(appB(appB(appV(appV(appV(SNil, 0), node.size), version), ord(node.key), len(node.key)), shaS(appRaw(SNil, ord(node.value), len(node.value))), 32))
+//@   ensures [inner] old(node.hash) == nil && res != nil && node.subtreeHeight != 0 && node.leftNode != node && node.rightNode != node && len(node.leftNode.hash) == 32 && len(node.rightNode.hash) == 32 ==> node.hash == res && len(res) == 32 && ord(res) == shaS(appB(appB(appV(appV(appV(SNil, node.subtreeHeight), node.size), version), ord(node.leftNode.hash), 32), ord(node.rightNode.hash), 32))
+//@   ensures [frame] nframe(old(heap(N)), heap(N), old(na))
+//@   modifies node.hash
